@@ -168,6 +168,20 @@ Lemma binder_eqb x old : binder x -> chan old = None ->
   name_equal x old = String.eqb (ident x) (ident old).
 Proof. intros [Hx _] Ho. apply name_equal_binder; auto. Qed.
 
+(* finite-map identities for the binders that rebind the provider *)
+Lemma ins_del_ins (Γ : gmap string sty) p c a b : <[p := a]> (delete c (<[p := b]> Γ)) = <[p := a]> (delete c Γ).
+Proof.
+  apply map_eq. intros i. destruct (decide (i = p)) as [->|Hp]; [rewrite !lookup_insert; auto|].
+  rewrite !lookup_insert_ne by auto. destruct (decide (i = c)) as [->|Hc]; [rewrite !lookup_delete; auto|].
+  rewrite !lookup_delete_ne by auto. rewrite lookup_insert_ne by auto. auto.
+Qed.
+Lemma del_ins_same (Γ : gmap string sty) c b : delete c (<[c := b]> Γ) = delete c Γ.
+Proof. apply delete_insert_delete. Qed.
+Lemma del_ins_ne (Γ : gmap string sty) c x b : c <> x -> delete c (<[x := b]> Γ) = <[x := b]> (delete c Γ).
+Proof. intros H. apply delete_insert_ne. auto. Qed.
+Lemma lookup_del_none (Γ : gmap string sty) c y : Γ !! y = None -> delete c Γ !! y = None.
+Proof. intros H. apply lookup_delete_None. auto. Qed.
+
 (* ------------------------------------------------------------------ a channel for a variable *)
 Lemma typed_subst_mut Δ old new x A :
   chan old = None -> ident old = x -> is_chan_of Δ new A ->
@@ -187,16 +201,17 @@ Proof.
   apply typed_mutind.
   - (* SendP *) intros; subst; simpl. eapply T_SendP; eauto.
   - (* SendC *) intros; subst; simpl. eapply T_SendC; eauto.
-  - (* RecvP *) intros Γ' sh rs s pay cont from k A0 B m Hp Hw Hbp Hbc Hne Hfr Hk IH Γ -> Hsh Hrs; simpl.
+  - (* RecvP *) intros Γ' sh rs s pay cont from k A0 B m Hp Hw Hbp Hbc Hne Hk IH Γ -> Hsh Hrs; simpl.
     rewrite (binder_eqb pay old), (binder_eqb cont old) by auto. rewrite Hx.
-    assert (E2 : ident cont <> x) by (intros <-; rewrite lookup_insert in Hfr; discriminate).
-    rewrite lookup_insert_ne in Hfr by auto.
     eapply T_RecvP; eauto.
     destruct (String.eqb (ident pay) x) eqn:E1; simpl.
-    { apply String.eqb_eq in E1. rewrite E1 in Hk. rewrite insert_insert in Hk. rewrite E1. exact Hk. }
+    { apply String.eqb_eq in E1. rewrite E1 in Hk |- *. rewrite ins_del_ins in Hk. exact Hk. }
     apply String.eqb_neq in E1.
-    apply String.eqb_neq in E2. rewrite E2. simpl. apply String.eqb_neq in E2.
-    apply IH; [apply insert_commute; auto | congruence | set_solver].
+    destruct (String.eqb (ident cont) x) eqn:E2; simpl.
+    { apply String.eqb_eq in E2. rewrite E2 in Hk |- *. rewrite del_ins_same in Hk. exact Hk. }
+    apply String.eqb_neq in E2.
+    apply IH; [|congruence|set_solver].
+    rewrite del_ins_ne by auto. apply insert_commute; auto.
   - (* RecvC *) intros Γ' sh rs s pay cont from k T A0 B m Hc Hw Hbp Hbc Hne Hs1 Hs2 Hk IH Γ -> Hsh Hrs; simpl.
     rewrite (binder_eqb pay old), (binder_eqb cont old) by auto. rewrite Hx.
     eapply T_RecvC; eauto.
@@ -237,13 +252,12 @@ Proof.
       rewrite map_length. split; [auto|]. split; [auto|]. split; [auto|]. eapply args_ok_subst; eauto.
   - (* CastP *) intros; subst; simpl. eapply T_CastP; eauto.
   - (* CastC *) intros; subst; simpl. eapply T_CastC; eauto.
-  - (* ShiftP *) intros Γ' sh rs s y from k fm tm A0 Hp Hw Hb Hfr Hk IH Γ -> Hsh Hrs; simpl.
+  - (* ShiftP *) intros Γ' sh rs s y from k fm tm A0 Hp Hw Hb Hk IH Γ -> Hsh Hrs; simpl.
     rewrite (binder_eqb y old) by auto. rewrite Hx.
-    assert (E1 : ident y <> x) by (intros <-; rewrite lookup_insert in Hfr; discriminate).
-    rewrite lookup_insert_ne in Hfr by auto.
     eapply T_ShiftP; eauto.
-    apply String.eqb_neq in E1. rewrite E1. simpl.
-    apply String.eqb_neq in E1. apply IH; [reflexivity|congruence|set_solver].
+    destruct (String.eqb (ident y) x) eqn:E1; simpl.
+    { apply String.eqb_eq in E1. rewrite E1 in Hk |- *. rewrite del_ins_same in Hk. exact Hk. }
+    apply String.eqb_neq in E1. apply IH; [apply del_ins_ne; auto|congruence|set_solver].
   - (* ShiftC *) intros Γ' sh rs s y from k T fm tm A0 Hc Hw Hb Hs1 Hk IH Γ -> Hsh Hrs; simpl.
     rewrite (binder_eqb y old) by auto. rewrite Hx.
     eapply T_ShiftC; eauto.
@@ -264,13 +278,12 @@ Proof.
     rewrite (insert_commute _ (ident x0) x) by auto. rewrite (insert_commute _ (ident y) x) by auto. reflexivity.
   - (* Print *) intros; subst; simpl. eapply T_Print; eauto.
   - (* brs_p nil *) intros; simpl. constructor.
-  - (* brs_p cons *) intros Γ' rs bs l pay k r A0 Hf Hb Hfr Hk IHk Hr IHr Γ -> Hrs; simpl.
+  - (* brs_p cons *) intros Γ' rs bs l pay k r A0 Hf Hb Hk IHk Hr IHr Γ -> Hrs; simpl.
     rewrite (binder_eqb pay old) by auto. rewrite Hx.
-    assert (E1 : ident pay <> x) by (intros <-; rewrite lookup_insert in Hfr; discriminate).
-    rewrite lookup_insert_ne in Hfr by auto.
     eapply TBP_cons; eauto.
-    apply String.eqb_neq in E1. rewrite E1. simpl.
-    apply String.eqb_neq in E1. apply IHk; [reflexivity|congruence|set_solver].
+    destruct (String.eqb (ident pay) x) eqn:E1; simpl.
+    { apply String.eqb_eq in E1. rewrite E1 in Hk |- *. rewrite del_ins_same in Hk. exact Hk. }
+    apply String.eqb_neq in E1. apply IHk; [apply del_ins_ne; auto|congruence|set_solver].
   - (* brs_c nil *) intros; simpl. constructor.
   - (* brs_c cons *) intros Γ' sh rs s bs l pay k r A0 Hf Hb Hs1 Hk IHk Hr IHr Γ -> Hsh Hrs; simpl.
     rewrite (binder_eqb pay old) by auto. rewrite Hx.
@@ -353,7 +366,7 @@ Proof.
   apply typed_mutind.
   - (* SendP *) intros; simpl. eapply T_SendP; eauto.
   - (* SendC *) intros; simpl. eapply T_SendC; eauto.
-  - (* RecvP *) intros Γ sh rs s pay cont from k A0 B m Hp Hw Hbp Hbc Hne Hfc Hk IH Hfr; simpl.
+  - (* RecvP *) intros Γ sh rs s pay cont from k A0 B m Hp Hw Hbp Hbc Hne Hk IH Hfr; simpl.
     rewrite (binder_eqb pay old), (binder_eqb cont old) by auto. rewrite Hy.
     destruct Hbp as [Hbp1 Hbp2]. destruct Hbc as [Hbc1 Hbc2].
     eapply T_RecvP; eauto; try (split; auto).
@@ -364,7 +377,7 @@ Proof.
     apply String.eqb_neq in E1. apply String.eqb_neq in E2.
     eapply typed_rs; [|rewrite <- (unshadow_other y (Some (ident cont))) by congruence; apply IH].
     + set_solver.
-    + rewrite lookup_insert_ne; auto.
+    + rewrite lookup_insert_ne by auto. apply lookup_del_none; auto.
   - (* RecvC *) intros Γ sh rs s pay cont from k T A0 B m Hc Hw Hbp Hbc Hne Hs1 Hs2 Hk IH Hfr; simpl.
     rewrite (binder_eqb pay old), (binder_eqb cont old) by auto. rewrite Hy.
     destruct Hbp as [Hbp1 Hbp2]. destruct Hbc as [Hbc1 Hbc2].
@@ -404,13 +417,13 @@ Proof.
       rewrite map_length. split; [auto|]. split; [auto|]. split; [auto|]. eapply args_ok_subst_prov; eauto.
   - (* CastP *) intros; simpl. eapply T_CastP; eauto.
   - (* CastC *) intros; simpl. eapply T_CastC; eauto.
-  - (* ShiftP *) intros Γ sh rs s x from k fm tm A0 Hp Hw Hb Hfx Hk IH Hfr; simpl.
+  - (* ShiftP *) intros Γ sh rs s x from k fm tm A0 Hp Hw Hb Hk IH Hfr; simpl.
     rewrite (binder_eqb x old) by auto. rewrite Hy. destruct Hb as [Hb1 Hb2].
     eapply T_ShiftP; eauto; try (split; auto).
     destruct (String.eqb (ident x) y) eqn:E1; simpl.
     { eapply typed_rs; [|exact Hk]. set_solver. }
     apply String.eqb_neq in E1.
-    eapply typed_rs; [|rewrite <- (unshadow_other y (Some (ident x))) by congruence; apply IH; auto].
+    eapply typed_rs; [|rewrite <- (unshadow_other y (Some (ident x))) by congruence; apply IH; apply lookup_del_none; auto].
     set_solver.
   - (* ShiftC *) intros Γ sh rs s x from k T fm tm A0 Hc Hw Hb Hs1 Hk IH Hfr; simpl.
     rewrite (binder_eqb x old) by auto. rewrite Hy. destruct Hb as [Hb1 Hb2].
@@ -435,13 +448,13 @@ Proof.
     + rewrite !lookup_insert_ne; auto.
   - (* Print *) intros; simpl. eapply T_Print; eauto.
   - (* brs_p nil *) intros; simpl. constructor.
-  - (* brs_p cons *) intros Γ rs bs l pay k r A0 Hf Hb Hfp Hk IHk Hr IHr Hfr; simpl.
+  - (* brs_p cons *) intros Γ rs bs l pay k r A0 Hf Hb Hk IHk Hr IHr Hfr; simpl.
     rewrite (binder_eqb pay old) by auto. rewrite Hy. destruct Hb as [Hb1 Hb2].
     eapply TBP_cons; eauto; try (split; auto).
     destruct (String.eqb (ident pay) y) eqn:E1; simpl.
     { eapply typed_rs; [|exact Hk]. set_solver. }
     apply String.eqb_neq in E1.
-    eapply typed_rs; [|rewrite <- (unshadow_other y (Some (ident pay))) by congruence; apply IHk; auto].
+    eapply typed_rs; [|rewrite <- (unshadow_other y (Some (ident pay))) by congruence; apply IHk; apply lookup_del_none; auto].
     set_solver.
   - (* brs_c nil *) intros; simpl. constructor.
   - (* brs_c cons *) intros Γ sh rs s bs l pay k r A0 Hf Hb Hs1 Hk IHk Hr IHr Hfr; simpl.
@@ -519,7 +532,7 @@ Proof.
     destruct (String.eqb (ident cont) x) eqn:E2; simpl; auto.
     apply String.eqb_neq in E1. apply String.eqb_neq in E2.
     match goal with IH : _ -> _ -> _ -> subst old new k = k |- _ => apply IH end;
-      [rewrite lookup_insert_ne; auto | congruence | set_solver].
+      [rewrite lookup_insert_ne by auto; apply lookup_del_none; auto | congruence | set_solver].
   - (* RecvC *) f_equal.
     destruct (String.eqb (ident pay) x) eqn:E1; simpl; auto.
     destruct (String.eqb (ident cont) x) eqn:E2; simpl; auto.
@@ -547,7 +560,8 @@ Proof.
   - (* CastC *) reflexivity.
   - (* ShiftP *) f_equal.
     destruct (String.eqb (ident x0) x) eqn:E1; simpl; auto. apply String.eqb_neq in E1.
-    match goal with IH : _ -> _ -> _ -> subst old new k = k |- _ => apply IH end; [auto | congruence | set_solver].
+    match goal with IH : _ -> _ -> _ -> subst old new k = k |- _ => apply IH end;
+      [apply lookup_del_none; auto | congruence | set_solver].
   - (* ShiftC *) f_equal.
     destruct (String.eqb (ident x0) x) eqn:E1; simpl; auto. apply String.eqb_neq in E1.
     match goal with IH : _ -> _ -> _ -> subst old new k = k |- _ => apply IH end;
@@ -562,7 +576,8 @@ Proof.
   - reflexivity.
   - (* brs_p cons *) f_equal; [|eauto].
     destruct (String.eqb (ident pay) x) eqn:E1; simpl; auto. apply String.eqb_neq in E1.
-    match goal with IH : _ -> _ -> _ -> subst old new k = k |- _ => apply IH end; [auto | congruence | set_solver].
+    match goal with IH : _ -> _ -> _ -> subst old new k = k |- _ => apply IH end;
+      [apply lookup_del_none; auto | congruence | set_solver].
   - reflexivity.
   - (* brs_c cons *) f_equal; [|eauto].
     destruct (String.eqb (ident pay) x) eqn:E1; simpl; auto. apply String.eqb_neq in E1.
